@@ -10,7 +10,9 @@
   What does hold, for all inputs, is proved at full generality:
     * comparison is by value, never by text (`cmp_refl`, `cmp_swap`, `eq_symm`,
       `twin_numerals_*`);
-    * integers below 2^53 are represented exactly (`toInt_ofNat`, `ofNat_injective`);
+    * integers below 2^53 are represented exactly (`toInt_ofNat`, `ofNat_injective`), are compared as integers
+      (`cmp_ofNat`) and are added and subtracted without rounding as long as the result stays below 2^53
+      (`normRound_pow`, `add_ofNat`, `sub_ofNat`);
     * an update never alters a number it does not target (C07's `update_frame`: untouched
       attributes keep their stored text, digit for digit).
 -/
@@ -79,6 +81,196 @@ theorem ofNat_injective (a b : Nat) (ha : a < 2 ^ 53) (hb : b < 2 ^ 53) (h : ofN
   have := congrArg toInt h
   rw [toInt_ofNat a ha, toInt_ofNat b hb] at this
   exact Int.ofNat.inj this
+
+/-! ### integer arithmetic below 2^53 is exact -/
+
+theorem log2_mul_pow (n K : Nat) (hn : n ≠ 0) : Nat.log2 (n * 2 ^ K) = Nat.log2 n + K := by
+  have hne : n * 2 ^ K ≠ 0 := Nat.mul_ne_zero hn (Nat.pos_iff_ne_zero.1 (Nat.two_pow_pos K))
+  rw [Nat.log2_eq_iff hne]
+  have h1 : 2 ^ Nat.log2 n ≤ n := Nat.log2_self_le hn
+  have h2 : n < 2 ^ (Nat.log2 n + 1) := Nat.lt_log2_self
+  constructor
+  · rw [Nat.pow_add]; exact Nat.mul_le_mul_right _ h1
+  · have : 2 ^ (Nat.log2 n + K + 1) = 2 ^ (Nat.log2 n + 1) * 2 ^ K := by
+      rw [← Nat.pow_add]; congr 1; omega
+    rw [this]
+    exact Nat.mul_lt_mul_of_pos_right h2 (Nat.two_pow_pos K)
+
+/-- the shift that normalises `n` to 53 bits -/
+def kOf (n : Nat) : Nat := 53 - (Nat.log2 n + 1)
+
+theorem ofNat_eq (n : Nat) (h0 : n ≠ 0) (h : n < 2 ^ 53) : ofNat n = ⟨false, n <<< kOf n, -((kOf n : Nat) : Int)⟩ :=
+  ofNat_pos n h0 h
+
+/-- rounding an integer that is `n·2^K` with `n < 2^53`, carried with exponent `-K`, gives `n` exactly -/
+theorem normRound_pow (n K : Nat) (h0 : n ≠ 0) (h : n < 2 ^ 53) :
+    normRound false (n <<< K) false (-(K : Int)) = ofNat n := by
+  have hB := bits_le n h0 h
+  have hq : n <<< K = n * 2 ^ K := Nat.shiftLeft_eq n K
+  have hq0 : (n <<< K == 0) = false := by
+    rw [hq]
+    have : n * 2 ^ K ≠ 0 := Nat.mul_ne_zero h0 (Nat.ne_of_gt (Nat.two_pow_pos K))
+    simpa using this
+  have hlog : Nat.log2 (n <<< K) = Nat.log2 n + K := by rw [hq]; exact log2_mul_pow n K h0
+  rw [ofNat_eq n h0 h]
+  unfold normRound
+  simp only [hq0, Bool.false_eq_true, if_false, hlog]
+  by_cases hc : Nat.log2 n + K + 1 ≤ 53
+  · simp only [hc, if_true, kOf]
+    congr 1
+    · rw [← Nat.shiftLeft_add]; congr 1; omega
+    · omega
+  · -- K = a + s: `s` bits are shifted out again, all of them zero
+    obtain ⟨s, hs, hs1⟩ : ∃ s, K = (53 - (Nat.log2 n + 1)) + s ∧ 1 ≤ s := ⟨Nat.log2 n + K + 1 - 53, by omega, by omega⟩
+    have hsh : Nat.log2 n + K + 1 - 53 = s := by omega
+    simp only [hc, if_false, kOf, hsh]
+    generalize ha : 53 - (Nat.log2 n + 1) = a at hs
+    subst hs
+    have htop : (n <<< (a + s)) >>> s = n <<< a := by
+      rw [Nat.shiftLeft_add]; exact Nat.shiftLeft_shiftRight _ _
+    have hrem : (n <<< (a + s)) % 2 ^ s = 0 := by
+      rw [Nat.shiftLeft_add, Nat.shiftLeft_eq (n <<< a)]; exact Nat.mul_mod_left _ _
+    have hhalf : 0 < 2 ^ (s - 1) := Nat.two_pow_pos _
+    have h1 : decide (0 > 2 ^ (s - 1)) = false := decide_eq_false (Nat.not_lt_zero _)
+    have h2 : (0 == 2 ^ (s - 1)) = false := beq_eq_false_iff_ne.2 (Nat.ne_of_lt hhalf)
+    have hlt : n <<< a < 2 ^ 53 := by
+      rw [Nat.shiftLeft_eq]
+      have h2' : n < 2 ^ (Nat.log2 n + 1) := Nat.lt_log2_self
+      have : 2 ^ 53 = 2 ^ (Nat.log2 n + 1) * 2 ^ a := by
+        rw [← Nat.pow_add]; congr 1; omega
+      rw [this]
+      exact Nat.mul_lt_mul_of_pos_right h2' (Nat.two_pow_pos _)
+    have hne53 : (n <<< a == 2 ^ 53) = false := beq_eq_false_iff_ne.2 (Nat.ne_of_lt hlt)
+    simp only [htop, hrem, h1, h2, Bool.false_and, Bool.or_self, Bool.false_eq_true, if_false, hne53]
+    congr 1
+    omega
+
+
+theorem ofNat_zero : ofNat 0 = zero false := by decide
+
+theorem scaled_zero (neg : Bool) (e : Int) : scaled (zero neg) e = 0 := by
+  unfold scaled zero; cases neg <;> simp
+
+theorem scaled_ofNat (n K : Nat) (h0 : n ≠ 0) (h : n < 2 ^ 53) (hK : kOf n ≤ K) :
+    scaled (ofNat n) (-(K : Int)) = ((n <<< K : Nat) : Int) := by
+  rw [ofNat_eq n h0 h]
+  unfold scaled
+  simp only [Bool.false_eq_true, if_false]
+  have : (-((kOf n : Nat) : Int) - -(K : Int)).toNat = K - kOf n := by omega
+  rw [this, ← Nat.shiftLeft_add]
+  congr 2; omega
+
+theorem exp_ofNat (n : Nat) (h0 : n ≠ 0) (h : n < 2 ^ 53) : (ofNat n).exp = -((kOf n : Nat) : Int) := by
+  rw [ofNat_eq n h0 h]
+
+/-- **exact addition of integers**: as long as the sum stays below 2^53 no rounding happens -/
+theorem add_ofNat (a b : Nat) (h : a + b < 2 ^ 53) : add (ofNat a) (ofNat b) = ofNat (a + b) := by
+  by_cases ha : a = 0
+  · subst ha
+    by_cases hb : b = 0
+    · subst hb; decide
+    · have hb' : b < 2 ^ 53 := by omega
+      rw [ofNat_zero, Nat.zero_add]
+      unfold add
+      have he : min (zero false).exp (ofNat b).exp = -((kOf b : Nat) : Int) := by
+        rw [exp_ofNat b hb hb']; simp only [zero]; omega
+      simp only [he, scaled_zero, Int.zero_add, scaled_ofNat b (kOf b) hb hb' (Nat.le_refl _)]
+      have hne : ((b <<< kOf b : Nat) : Int) ≠ 0 := by
+        rw [Nat.shiftLeft_eq]
+        have : b * 2 ^ kOf b ≠ 0 := Nat.mul_ne_zero hb (Nat.ne_of_gt (Nat.two_pow_pos _))
+        exact_mod_cast this
+      have hb0 : ((((b <<< kOf b : Nat) : Int)) == 0) = false := beq_eq_false_iff_ne.2 hne
+      simp only [hb0, Bool.false_eq_true, if_false, Int.natAbs_natCast]
+      have hneg : decide (((b <<< kOf b : Nat) : Int) < 0) = false := decide_eq_false (Int.not_lt.2 (Int.natCast_nonneg _))
+      rw [hneg]
+      exact normRound_pow b (kOf b) hb hb'
+  · by_cases hb : b = 0
+    · subst hb
+      have ha' : a < 2 ^ 53 := by omega
+      rw [ofNat_zero, Nat.add_zero]
+      unfold add
+      have he : min (ofNat a).exp (zero false).exp = -((kOf a : Nat) : Int) := by
+        rw [exp_ofNat a ha ha']; simp only [zero]; omega
+      simp only [he, scaled_zero, Int.add_zero, scaled_ofNat a (kOf a) ha ha' (Nat.le_refl _)]
+      have hne : ((a <<< kOf a : Nat) : Int) ≠ 0 := by
+        rw [Nat.shiftLeft_eq]
+        have : a * 2 ^ kOf a ≠ 0 := Nat.mul_ne_zero ha (Nat.ne_of_gt (Nat.two_pow_pos _))
+        exact_mod_cast this
+      have hb0 : ((((a <<< kOf a : Nat) : Int)) == 0) = false := beq_eq_false_iff_ne.2 hne
+      simp only [hb0, Bool.false_eq_true, if_false, Int.natAbs_natCast]
+      have hneg : decide (((a <<< kOf a : Nat) : Int) < 0) = false := decide_eq_false (Int.not_lt.2 (Int.natCast_nonneg _))
+      rw [hneg]
+      exact normRound_pow a (kOf a) ha ha'
+    · have ha' : a < 2 ^ 53 := by omega
+      have hb' : b < 2 ^ 53 := by omega
+      have hab : a + b ≠ 0 := by omega
+      unfold add
+      have he : min (ofNat a).exp (ofNat b).exp = -((max (kOf a) (kOf b) : Nat) : Int) := by
+        rw [exp_ofNat a ha ha', exp_ofNat b hb hb']; omega
+      simp only [he, scaled_ofNat a _ ha ha' (Nat.le_max_left _ _), scaled_ofNat b _ hb hb' (Nat.le_max_right _ _)]
+      generalize max (kOf a) (kOf b) = K
+      have hsum : ((a <<< K : Nat) : Int) + ((b <<< K : Nat) : Int) = (((a + b) <<< K : Nat) : Int) := by
+        rw [Nat.shiftLeft_eq, Nat.shiftLeft_eq, Nat.shiftLeft_eq, Nat.add_mul]; push_cast; rfl
+      rw [hsum]
+      have hne : (((a + b) <<< K : Nat) : Int) ≠ 0 := by
+        rw [Nat.shiftLeft_eq]
+        have : (a + b) * 2 ^ K ≠ 0 := Nat.mul_ne_zero hab (Nat.ne_of_gt (Nat.two_pow_pos _))
+        exact_mod_cast this
+      have hb0 : (((((a + b) <<< K : Nat) : Int)) == 0) = false := beq_eq_false_iff_ne.2 hne
+      simp only [hb0, Bool.false_eq_true, if_false, Int.natAbs_natCast]
+      have hneg : decide ((((a + b) <<< K : Nat) : Int) < 0) = false := decide_eq_false (Int.not_lt.2 (Int.natCast_nonneg _))
+      rw [hneg]
+      exact normRound_pow (a + b) K hab h
+
+/-- **exact subtraction of integers** (both positive, result non-negative) -/
+theorem sub_ofNat (a b : Nat) (ha : a < 2 ^ 53) (ha0 : a ≠ 0) (hb0 : b ≠ 0) (hle : b ≤ a) :
+    sub (ofNat a) (ofNat b) = ofNat (a - b) := by
+  have hb : b < 2 ^ 53 := by omega
+  unfold sub
+  have he : min (ofNat a).exp (ofNat b).exp = -((max (kOf a) (kOf b) : Nat) : Int) := by
+    rw [exp_ofNat a ha0 ha, exp_ofNat b hb0 hb]; omega
+  simp only [he, scaled_ofNat a _ ha0 ha (Nat.le_max_left _ _), scaled_ofNat b _ hb0 hb (Nat.le_max_right _ _)]
+  generalize max (kOf a) (kOf b) = K
+  have hdiff : ((a <<< K : Nat) : Int) - ((b <<< K : Nat) : Int) = (((a - b) <<< K : Nat) : Int) := by
+    rw [Nat.shiftLeft_eq, Nat.shiftLeft_eq, Nat.shiftLeft_eq, Nat.sub_mul]
+    have : b * 2 ^ K ≤ a * 2 ^ K := Nat.mul_le_mul_right _ hle
+    omega
+  rw [hdiff]
+  by_cases hab : a - b = 0
+  · have haneg : (ofNat a).neg = false := by rw [ofNat_eq a ha0 ha]
+    rw [hab]
+    have hz : (((0 <<< K : Nat) : Int) == 0) = true := by simp
+    simp only [hz, if_true, haneg, Bool.false_and]
+    rfl
+  · have hne : (((a - b) <<< K : Nat) : Int) ≠ 0 := by
+      rw [Nat.shiftLeft_eq]
+      have : (a - b) * 2 ^ K ≠ 0 := Nat.mul_ne_zero hab (Nat.ne_of_gt (Nat.two_pow_pos _))
+      exact_mod_cast this
+    have hb0' : (((((a - b) <<< K : Nat) : Int)) == 0) = false := beq_eq_false_iff_ne.2 hne
+    simp only [hb0', Bool.false_eq_true, if_false, Int.natAbs_natCast]
+    have hneg : decide ((((a - b) <<< K : Nat) : Int) < 0) = false := decide_eq_false (Int.not_lt.2 (Int.natCast_nonneg _))
+    rw [hneg]
+    exact normRound_pow (a - b) K hab (by omega)
+
+/-- integers below 2^53 compare as integers -/
+theorem cmp_ofNat (a b : Nat) (ha : a < 2 ^ 53) (hb : b < 2 ^ 53) (ha0 : a ≠ 0) (hb0 : b ≠ 0) :
+    cmp (ofNat a) (ofNat b) = compare a b := by
+  unfold cmp
+  have he : min (ofNat a).exp (ofNat b).exp = -((max (kOf a) (kOf b) : Nat) : Int) := by
+    rw [exp_ofNat a ha0 ha, exp_ofNat b hb0 hb]; omega
+  simp only [he, scaled_ofNat a _ ha0 ha (Nat.le_max_left _ _), scaled_ofNat b _ hb0 hb (Nat.le_max_right _ _)]
+  generalize max (kOf a) (kOf b) = K
+  rw [Nat.shiftLeft_eq, Nat.shiftLeft_eq]
+  have hp : 0 < 2 ^ K := Nat.two_pow_pos K
+  rcases Nat.lt_trichotomy a b with hlt | heq | hgt
+  · have h1 : a * 2 ^ K < b * 2 ^ K := Nat.mul_lt_mul_of_pos_right hlt hp
+    rw [Nat.compare_eq_lt.2 hlt]
+    exact Int.compare_eq_lt.2 (by exact_mod_cast h1)
+  · subst heq; simp
+  · have h1 : b * 2 ^ K < a * 2 ^ K := Nat.mul_lt_mul_of_pos_right hgt hp
+    rw [Nat.compare_eq_gt.2 hgt]
+    exact Int.compare_eq_gt.2 (by exact_mod_cast h1)
+
 
 /-! ### the property is false beyond 53 bits: the witnesses of KF-C12-float-arithmetic -/
 
